@@ -228,7 +228,7 @@ theorem lemma_shutdown (sc : Scenario) (race sent : Bool) (s : Segs) (rres : Lis
                              drain := if drained = true then drainEvs sc.metrics 0 sc.reqs else [],
                              flush := flushIf sc.tracing, stops := stopHooks 0 sc.stops } : Segs).log,
             res := if timeout = true then Res.errDrain else Res.ok,
-            finApp := false, finMet := false,
+            finApp := false, finMet := false, finHeld := false,
             reqs := sc.reqs.map (reqResOf sent (shutRanIdx sc.shuts.length (firstPanicIdx (lifo 0 sc.shuts)))
                       drained),
             rounds := rres } = true := by
@@ -304,25 +304,27 @@ theorem lemma_failed_wk (sc : Scenario) (c : Bool) (fl : List Ev) (hfl : kindsIn
   post := kindsIn_nil _
 
 /-- what a failed start-up looks like -/
-def failedObs (sc : Scenario) (c : Bool) (res : Res) (finMet tr : Bool) : Obs :=
+def failedObs (sc : Scenario) (c : Bool) (res : Res) (finMet finHeld tr : Bool) : Obs :=
   { log := ({ starts := (startHooks sc.metrics 0 c sc.starts).evs, flush := flushIf tr } : Segs).log,
-    res := res, finApp := false, finMet := finMet, reqs := naReqs sc, rounds := naRounds sc }
+    res := res, finApp := false, finMet := finMet, finHeld := finHeld, reqs := naReqs sc, rounds := naRounds sc }
 
 /-- a failed start-up of the repaired code: nothing is left running -/
-theorem lemma_failed (sc : Scenario) (c : Bool) (res : Res) (finMet : Bool) (tr : Bool)
+theorem lemma_failed (sc : Scenario) (c : Bool) (res : Res) (finMet finHeld : Bool) (tr : Bool)
     (hcond : ((sc.starts.find? startFails).isNone && sc.listen == Listen.ok) = false)
     (hres : match sc.starts.find? startFails with
       | some .panic => res = .panic
-      | some _ => res = .errStartup ∧ finMet = false ∧ tr = sc.tracing
-      | none => res = .errListen ∧ finMet = false ∧ tr = sc.tracing) :
-    holds sc (failedObs sc c res finMet tr) = true := by
+      | some _ => res = .errStartup ∧ (finMet = false ∧ finHeld = false) ∧ tr = sc.tracing
+      | none => res = .errListen ∧ (finMet = false ∧ finHeld = false) ∧ tr = sc.tracing) :
+    holds sc (failedObs sc c res finMet finHeld tr) = true := by
   have wk := lemma_failed_wk sc c (flushIf tr) (flushIf_kinds _)
   simp only [holds, hcond, Bool.false_eq_true, if_false, Bool.and_eq_true]
   refine ⟨⟨⟨⟨lemma_returnsOnce wk, lemma_startsOk sc wk c rfl⟩, lemma_readiesOk sc wk (Or.inl rfl)⟩,
     lemma_reloadsOk wk _ (by simp [ids_nil]) (lemma_naRounds sc) _ rfl rfl⟩, ?_⟩
-  have clean : tr = sc.tracing → finMet = false → telemetryClean sc (failedObs sc c res finMet tr) = true := by
+  have clean : tr = sc.tracing → (finMet = false ∧ finHeld = false) →
+      telemetryClean sc (failedObs sc c res finMet finHeld tr) = true := by
     intro h1 h2
-    subst h1 h2
+    obtain ⟨h2, h3⟩ := h2
+    subst h1 h2 h3
     simp only [telemetryClean, failedObs, Bool.not_false, Bool.true_and, Bool.or_eq_true, Bool.and_eq_true,
       beq_iff_eq]
     cases htr : sc.tracing
@@ -332,8 +334,8 @@ theorem lemma_failed (sc : Scenario) (c : Bool) (res : Res) (finMet : Bool) (tr 
       refine ⟨?_, Segs.log_precedes wk' _ _ .flush .ret isFlush_kind isRet_kind (by decide)⟩
       rw [Segs.log_countFlush wk']
       rfl
-  have fa : (failedObs sc c res finMet tr).finApp = false := rfl
-  have fr : (failedObs sc c res finMet tr).res = res := rfl
+  have fa : (failedObs sc c res finMet finHeld tr).finApp = false := rfl
+  have fr : (failedObs sc c res finMet finHeld tr).res = res := rfl
   simp only [failedStartOk, Bool.and_eq_true]
   refine ⟨?_, ?_⟩
   · show (!(({ starts := (startHooks sc.metrics 0 c sc.starts).evs, flush := flushIf tr } : Segs).log.any isReady)) = true
